@@ -484,6 +484,10 @@ class Interp:
             return l // r if op == "/" else l % r
         if op in ("/", "%"):
             return VOpaque("div" if op == "/" else "rem", [l, r])
+        if op in ("||", "&&"):
+            if isinstance(l, bool) and isinstance(r, bool):
+                return (l or r) if op == "||" else (l and r)
+            return VOpaque("or" if op == "||" else "and", [l, r])
         self.fail(e, f"binary operator {op}")
 
     def arith(self, op, l, r, node):
@@ -607,6 +611,8 @@ class Interp:
         return UNIT
 
     def e_if(self, e, env):
+        if e["cond"]["k"] == "letcond":
+            return self.e_if_let(e, env)
         c = self.expr(e["cond"], env)
         if isinstance(c, bool):
             if c:
@@ -660,6 +666,26 @@ class Interp:
         if k == "lit" and isinstance(v, (bool, int)):
             return pat["text"] == str(v).lower()
         self.fail(node, f"pattern {k} in match")
+
+    def e_if_let(self, e, env):
+        """`if let Some(p) = E { return V; }` on a symbolic option: one early-exit event, then fall through."""
+        lc = e["cond"]
+        v = self.expr(lc["e"], env)
+        pat = lc["pat"]
+        if e["else"] is not None or pat["k"] != "tuple_struct" or pat["path"].split("::")[-1] != "Some" or len(pat["elems"]) != 1:
+            self.fail(e, "if-let shape")
+        if not isinstance(v, (VOpaque, Sym)):
+            self.fail(e, "if-let on a non-symbolic value")
+        env2 = dict_child(env)
+        self.bind(pat["elems"][0], VOpaque("some_of", [v]), env2)
+        if _has_mutation(e["then"]):
+            self.fail(e, "mutation inside symbolic if-let")
+        try:
+            self.block(e["then"], env2)
+        except Return as r:
+            self.ctx.exits.append(("return_if_some", v, r.v))
+            return UNIT
+        self.fail(e, "if-let body does not return")
 
     def e_return(self, e, env):
         v = self.expr(e["e"], env) if e["e"] is not None else UNIT
@@ -803,6 +829,14 @@ class Interp:
             return VArr(recv.items, "vec")
         if m == "len" and isinstance(recv, (VArr, VIter)):
             return len(recv.items)
+        if m in ("min", "max") and len(args) == 1:
+            if isinstance(recv, int) and isinstance(args[0], int):
+                return min(recv, args[0]) if m == "min" else max(recv, args[0])
+            return VOpaque(m, [recv, args[0]])
+        if m == "get" and isinstance(recv, (Sym, VOpaque)) and len(args) == 1:
+            return VOpaque("get", [recv, args[0]])
+        if m == "ok_or" and isinstance(recv, VOpaque) and recv.name == "get" and len(args) == 1:
+            return ("fallible", f"{recv.canon()} is None => Err({canon_err(args[0])})", VOpaque("some_of", [recv]))
         if m == "len" and isinstance(recv, (Sym, VOpaque, Poly)) and not args:
             return VOpaque("len", [recv])
         if m == "for_each" and isinstance(recv, VSymIter) and isinstance(args[0], VClosure):
@@ -1023,6 +1057,9 @@ class Unit:
 
 def run_unit(root, unit, contracts, seed=0, perturb=None):
     """Returns list of obligation dicts (id, text, status, detail, cex)."""
+    if getattr(unit, "extra_contracts", None):
+        contracts = dict(contracts)
+        contracts.update(unit.extra_contracts)
     ast = dump_ast(root, unit.file, unit.fn)
     consts = dict(file_consts(root, unit.file))
     consts.update(unit.consts)
